@@ -542,7 +542,58 @@ def r_input():
     lib.write_gen("InputTables", "\n".join(out).replace("\\n", "\n"))
 
 
+def skeleton_rows():
+    """The class skeletons of every output model type, rendered by the real templates through generate() with neutral
+    slot texts, over the structural flag combinations: number of members x description x base class x closed x
+    schema descriptions on/off, plus enums and root models.  Row: (kind, shape, options) -> every written module compiles."""
+    lib.ensure_repo_on_path()
+    import itertools
+    import json as _json
+    from harness import e2e
+    rows = []
+    kinds = ["pydantic.BaseModel", "pydantic_v2.BaseModel", "dataclasses.dataclass", "typing.TypedDict", "msgspec.Struct"]
+    for kind, nf, desc, base, closed, usd in itertools.product(kinds, (0, 1, 2), (0, 1, 2), (0, 1), (0, 1), (0, 1)):
+        props = {f"m{i}": {"type": "integer", **({"description": "member text"} if desc else {})} for i in range(nf)}
+        root = {"title": "Root", "type": "object", "properties": props}
+        if desc == 1:
+            root["description"] = "one line"
+        elif desc == 2:
+            root["description"] = "line one\nline two"
+        if closed:
+            root["additionalProperties"] = False
+        defs = {"E": {"type": "string", "enum": ["a", "b"]}, "S": {"type": "string", "minLength": 1}, "L": {"type": "array", "items": {"type": "integer"}},
+                "Z": {"type": "string", "enum": []} if nf == 0 and not desc else {"type": "string", "enum": ["z"], "description": "enum text"}}
+        if base:
+            defs["B"] = {"type": "object", "properties": {"b": {"type": "string"}}}
+            root["allOf"] = [{"$ref": "#/definitions/B"}]
+        root["definitions"] = defs
+        opts = {"use_schema_description": True, "use_field_description": True} if usd else {}
+        g = e2e.generate(_json.dumps(root), kind=kind, **opts)
+        ok = False
+        if g.ok:
+            ok = True
+            for text in g.files.values():
+                try:
+                    compile(text, "<skeleton>", "exec", dont_inherit=True)
+                except SyntaxError:
+                    ok = False
+        elif g.error and not g.timeout and "Error" in type(g.error).__name__ if not isinstance(g.error, str) else False:
+            ok = True
+        rows.append((kind, f"members={nf} description={desc} base={base} closed={closed}", "descriptions" if usd else "plain", ok, bool(g.ok)))
+    return rows
+
+
+def r_skeleton():
+    rows = skeleton_rows()
+    S = coq_string
+    out = ["(* GENERATED on every run: class skeletons rendered by the real templates (through generate()) with neutral slot texts,\n   one row per output model type x structural flag combination: (kind, shape, options, every module compiles, generation succeeded). *)\nFrom Coq Require Import List String Bool.\nImport ListNotations.\nOpen Scope string_scope.\n".replace("\\n", "\n")]
+    out.append("Definition skeleton_table : list (string * string * string * bool * bool) := [\n" + ";\n".join(
+        f"  ({S(a)}, {S(b)}, {S(c)}, {lib.coq_bool(d)}, {lib.coq_bool(e)})" for a, b, c, d, e in rows) + "].\n")
+    lib.write_gen("SkeletonTable", "\n".join(out).replace("\\n", "\n"))
+
+
 REFLECTORS = {
+    "SkeletonTable": r_skeleton,
     "InputTables": r_input,
     "ConstraintTables": r_constraints,
     "DeterminismTables": r_determinism,
